@@ -242,6 +242,31 @@ impl Sched {
         }
         let me = self.clone();
         verif::install(Some(Arc::new(move |ev: Event| me.on_event(ev))));
+        // counting threads of train_bpe / Dictionary::create: seeded delay injection only
+        let me = self.clone();
+        verif::install_count(Some(Arc::new(
+            move |site: verif::CountSite, instance: usize, thread: usize| {
+                let all = me.chaos_all_level.load(Ordering::Relaxed) as u64;
+                if all == 0 {
+                    return;
+                }
+                let n = EVENT_NO.with(|c| {
+                    let v = c.get();
+                    c.set(v + 1);
+                    v
+                });
+                let seed = me.chaos_all_seed.load(Ordering::Relaxed);
+                let h = crate::core::hash64(&(seed, instance, thread, site as u8, n));
+                let r = h % 1000;
+                if r < 60 * all {
+                    std::thread::yield_now();
+                } else if r < 100 * all {
+                    busy_wait(Duration::from_micros(1 + (h >> 10) % 80));
+                } else if r < 115 * all {
+                    std::thread::sleep(Duration::from_micros(50 + (h >> 10) % 1200));
+                }
+            },
+        )));
     }
 
     /// prepare for a new case. `next_instance` is the id the first Pipe/Buffered created from now
